@@ -356,6 +356,8 @@ class PyExec:
             if isinstance(e.op, ast.USub):
                 if isinstance(v, (int, float)) and not isinstance(v, bool):
                     return -v
+                if isinstance(v, Num) and all(z3.is_bool(x) for x in v.cols):
+                    raise ArtefactError("TypeError", "numpy boolean negative, the `-` operator, is not supported")
                 return self.lift(c.neg, v)
             if isinstance(e.op, ast.UAdd):
                 return v if isinstance(v, (int, float)) else self.lift(c.real, v)
@@ -420,8 +422,23 @@ class PyExec:
         if self.jax:
             raise ArtefactError("TracerBoolConversionError", f"python {what} on a traced value under jax.jit")
 
+    def _both_bool(self, a, b):
+        try:
+            na, nb = self.as_num(a), self.as_num(b)
+        except Unsupported:
+            return False
+        return all(z3.is_bool(x) for x in na.cols) and all(z3.is_bool(x) for x in nb.cols)
+
     def binop(self, op, a, b):
         c = self.ctx
+        # numpy / jax boolean arrays: + is logical or, * is logical and, - is a TypeError (validated against numpy 2.5 / jax 0.11)
+        if self._both_bool(a, b):
+            if isinstance(op, ast.Add):
+                return self.lift(c.or_, a, b)
+            if isinstance(op, ast.Mult):
+                return self.lift(c.and_, a, b)
+            if isinstance(op, ast.Sub):
+                raise ArtefactError("TypeError", "numpy boolean subtract, the `-` operator, is not supported")
         if isinstance(op, ast.Add):
             return self.lift(c.add, a, b)
         if isinstance(op, ast.Sub):
@@ -631,6 +648,14 @@ class PyExec:
             return out
         if name in ("float64",):
             return self.as_num(args[0])
+        if name in ("isclose", "allclose"):
+            rtol = kw.get("rtol", args[2] if len(args) > 2 else 1e-05)
+            atol = kw.get("atol", args[3] if len(args) > 3 else 1e-08)
+            rt, at = RV(kappa_float(float(rtol))), RV(kappa_float(float(atol)))
+            close = self.lift(lambda x, y: c.abs(c.sub(x, y)) <= at + rt * c.abs(y), args[0], args[1])
+            if name == "isclose":
+                return close
+            return Num([c.and_(*close.cols)] if len(close.cols) > 1 else [close.cols[0]], False)
         if name == "broadcast_arrays":
             nums = [self.as_num(a) for a in args]
             vec = any(x.vec for x in nums)
